@@ -31,6 +31,16 @@ CHECKS = {
          "Generated configurations (port/ports, malformed strings, undefined and duplicate service names, duplicates across entries) are loaded by the real server; the multiset of addresses the listener is asked to listen on and the service each probed address reaches must equal the reference table's.",
          "IP literals only; non-canonical numerals are not generated because the statement does not pin them.",
          "DESIGN.md §5 C19"),
+ "C10": ("exploration",
+         "runtime monitoring: reply datagrams captured by the datagram connection's reply function behind the real dispatcher; oracle = per-source-IP count <= 4 and min(n,4) replies for reply-eliciting bursts whatever other sources send; race detector as diagnostic on the concurrent bursts",
+         "Bursts of 1..200 datagrams (grammar mixes incl. multi-command memcached datagrams) from one IP over varying ports, sequential and from 200 concurrent goroutines, interleaved with bursts from other IPs, are delivered to tftp, memcached, snmp and counterstrike through the real server.Run; replies are counted per source IP.",
+         "Scenario duration is far below the 10-minute refill; fresh source IPs per scenario. The lower bound is only demanded for bursts of reply-eliciting requests.",
+         "DESIGN.md §5 C10"),
+ "C17": ("exploration",
+         "runtime monitoring: decoder operations executed under Go bounds checks on exact-capacity buffers and compared step by step with a cursor model (exhaustive over all operation sequences up to length 3/4 on 56 buffers, seeded beyond); IPP requests from an independent encoder posted through the real dispatcher, reply and event compared with what was encoded",
+         "Every sequence runs against the real decoder in its own recover; return value, Available() and the error flag are compared with the model after every operation. IPP requests over the five operations with every supported value tag and 1..3 values go through server.Run; reply version/request-id/charset/language and the print-job event fields must equal what was encoded.",
+         "Out-of-bounds reads are observed through Go's bounds checks (capacity == length). The statement's treatment of negative arguments is modelled as 'does not fit' for Copy and 'rewind inside the buffer' for Seek.",
+         "DESIGN.md §5 C17"),
 }
 
 NOT_YET = {
